@@ -1,7 +1,7 @@
 """C02 - postconditions gate every normal return; results and exceptions pass unchanged."""
 from typing import Any, Dict, List, Tuple
 
-from vfw.build import RT, get_built, invoke, identify
+from vfw.build import RT, get_built, invoke, identify, raised_types
 from vfw.hlib import BodyBase, BodyError, BodyKbd, Tag, conc, fresh, note
 from vfw.hspec import B, H, I, bind
 from vfw.prog import ALL_KINDS, ASYNC_KINDS, CTOR_KINDS, Level, Prog, effective, expect
@@ -63,7 +63,7 @@ def run_post(kind: str, is_async: bool, mode: str, p0: int, d1: int, p1: int, sn
     built.rt = rt
     body_raises = bo >= 6
 
-    catch = (Tag, AssertionError, BodyError, StopIteration, BodyBase, BodyKbd)
+    catch = (Tag, AssertionError, BodyError, StopIteration, BodyBase, BodyKbd) + raised_types(built)
     try:
         got = fresh(invoke, built, arg)
         raised = None
